@@ -281,3 +281,25 @@ def replay_tlc_trace(ctx, res, replayer, proj, hdr, tag, replayer_args=None):
     os.remove(script)
     followed = pr["summary"] is not None and pr["ok"] == 1
     return followed, out, text
+
+
+def trace_validate(ctx, spec_dir, module, base_cfg, constants, trace_path, tag, nlines=None):
+    """code -> spec: TLC validates a recorded ndjson trace against a *Trace.tla module (POSTCONDITION
+    TraceAccepted).  A rejection is re-run once; returns (accepted, matched_prefix_len, TlcResult)."""
+    sd = os.path.join(vlib.VERIF, "spec", spec_dir)
+    cfg = os.path.join(vlib.BUILD, "%s_%s_tv.cfg" % (ctx.prop, tag))
+    vlib.write_cfg(cfg, open(os.path.join(sd, base_cfg)).read(), constants)
+    res = None
+    for attempt in range(2):
+        res = vlib.run_tlc(sd, module, cfg, "%s_%s_tv" % (ctx.prop, tag), workers=1, coverage=False, timeout=900,
+                           env={"TRACE": trace_path})
+        if res.ok:
+            break
+        if res.error and not res.violation:
+            raise MachineryError("trace validation failed to run (%s): %s" % (module, res.error))
+    ctx.states += res.distinct
+    ctx.transitions += res.generated
+    ctx.models.append({"module": module, "cfg": base_cfg, "trace_lines": nlines, "distinct": res.distinct,
+                       "accepted": bool(res.ok), "violation": res.violation})
+    matched = max(0, res.distinct - 1)
+    return bool(res.ok), matched, res
